@@ -8,7 +8,7 @@ ID = "C10"
 RULE = ("Mode G over an adversarial id/bounds grammar, enumerated completely: top node with 1..2 (3 in a sub-family) children, each a leaf "
         "(id in {x,y,a,b,ab,A(=top),B,C}, bounds from a menu with equal-sum pairs (0,3)/(1,2), the hash(-1)==hash(-2) pair (-1,5)/(-2,5) and "
         "plain differences) or a compound (id B/C/generated, sign/value in {(+,1),(+,2),(-,-1),(-,-2),(-,1),(+,-1)}, 1..2 children incl. a leaf with a box symmetric around 0, optionally nested), "
-        "plus a family of generated-id coincidences under DIFFERENT parents (+(ab,c) vs +(a,bc) ...), plus wrapper families that reuse the same object / an equal copy / a different definition of one id under two parents, self "
+        "plus a family of definitions of one id whose child-id lists look alike in joined text (ids containing ',' / ', ' / quotes / blanks), plus a family of generated-id coincidences under DIFFERENT parents (+(ab,c) vs +(a,bc) ...), plus wrapper families that reuse the same object / an equal copy / a different definition of one id under two parents, self "
         "references and 2-/3-cycles through ids. oracle: soundness errors()==[] => reference validator (own traversal, compares ids and "
         "(lo,hi) tuples and (sign,value,children) directly, never hashes); completeness on models whose ids are pairwise distinct or whose "
         "equal ids carry identical records. non-trivial = distinct model that the reference rejects")
@@ -88,6 +88,15 @@ def gen_menu():
     return out
 
 
+SEP_SETS = [("a", "b"), ("a,b",), ("a", "b", "c"), ("a,b", "c"), ("a", "b,c"), ("a,b,c",), ("a', 'b",), ("a b",), ("a, b",), ("a",), ("a,",), (",a",)]
+
+
+def sep_menu():
+    """Compounds with ONE explicit id whose child-id lists differ but look alike in any text that joins ids with ',', ', ', "', '" or ' '
+    (repr / to_text / to_short style renderings): +(a,b) vs +('a,b'), +(a,b,c) vs +('a,b',c) vs +(a,'b,c') ..."""
+    return [comp_spec("B", s_, v_, [leaf_spec(c, (0, 1)) for c in cs]) for (s_, v_) in ((1, 1), (-1, -1)) for cs in SEP_SETS]
+
+
 def build(spec, memo):
     """memo: dict spec->object when sharing identical specs as ONE object, or None for fresh copies."""
     if memo is not None and spec in memo:
@@ -152,6 +161,7 @@ def shards(tier):
     out += [("wrap", lo, min(nb, lo + 8)) for lo in range(0, nb, 8)]
     ng = len(gen_menu())
     out += [("wrapg", lo, min(ng, lo + 6)) for lo in range(0, ng, 6)]
+    out += [("wraps", 0, len(sep_menu()))]
     out += [("triples", lo, min(len(triple_menu(tier)), lo + 2)) for lo in range(0, len(triple_menu(tier)), 2)]
     return out
 
@@ -194,6 +204,13 @@ def run_shard(desc, acc, tier):
                         D = comp_spec("D", 1, 1, [gm[j]] + ([leaf_spec(*extra)] if extra else []))
                         E = comp_spec("E", 1, 1, [gm[i], leaf_spec("y", (0, 1))])
                         check((E, D), (1, 2), share, acc, {"kind": kind, "i": [i, j], "extra": extra, "share": share})
+    elif kind == "wraps":
+        sm = sep_menu()
+        for i in range(lo, hi):
+            for j in range(len(sm)):
+                for share in (True, False):
+                    D = comp_spec("D", 1, 1, [sm[j]])
+                    check((sm[i], D), (1, 2), share, acc, {"kind": kind, "i": [i, j], "share": share})
     elif kind == "triples":
         tm = triple_menu(tier)
         for i in range(lo, hi):
@@ -257,6 +274,9 @@ def replay(case, acc):
         D = comp_spec("D", 1, 1, [gm[case["i"][1]]] + ([leaf_spec(*extra)] if extra else []))
         E = comp_spec("E", 1, 1, [gm[case["i"][0]], leaf_spec("y", (0, 1))])
         check((E, D), (1, 2), share, acc, case)
+    elif kind == "wraps":
+        sm = sep_menu()
+        check((sm[case["i"][0]], comp_spec("D", 1, 1, [sm[case["i"][1]]])), (1, 2), share, acc, case)
     elif kind == "wrap":
         sb = small_b_menu()
         extra = case["extra"]
